@@ -61,6 +61,8 @@ def gen_case(rng, tier, idx):
                   "outstandingShares": 1000, "marketPrice": rng.choice([100.0, 500.0])}
     # an index market has to be declared after its components (its setup reads their outstanding shares);
     # markets that are not components may follow it
+    if rng.random() < 0.25:
+        cfg["IDX"]["userSubclass"] = True     # run as a user-registered subclass of IndexMarket
     last = max(cfg["simulation"]["markets"].index(c) for c in comps)
     cfg["simulation"]["markets"].insert(rng.randint(last + 1, len(cfg["simulation"]["markets"])), "IDX")
     if rng.random() < 0.3:
